@@ -226,9 +226,16 @@ def parse_casstype_args(typestring):
             else:
                 names.append(None)
 
-            try:
-                ctype = int(tok)
-            except ValueError:
+            # only a vector takes a number (its dimension) as a parameter; elsewhere an
+            # all-digit token is a name, e.g. the hex-encoded name of a UDT
+            enclosing = args[-2][0][-1] if len(args) > 1 and args[-2][0] else None
+            ctype = None
+            if isinstance(enclosing, type) and issubclass(enclosing, VectorType):
+                try:
+                    ctype = int(tok)
+                except ValueError:
+                    pass
+            if ctype is None:
                 ctype = lookup_casstype_simple(tok)
             types.append(ctype)
 
